@@ -502,7 +502,7 @@ func NewProcess(processElem *schema.Process, definitions *schema.Definitions, op
 			return
 		}
 		var node *harness
-		subProcess := newSubProcess(process.eventDefinitionInstanceBuilder, idGenerator, element)
+		subProcess := newSubProcess(ctx, process.eventDefinitionInstanceBuilder, idGenerator, element)
 		node, err = newHarness(wr, idGenerator, subProcess)
 		if err != nil {
 			return
